@@ -31,7 +31,7 @@
 (***************************************************************************)
 EXTENDS XTree, TLC
 
-CONSTANTS MaxItems, ItemKinds, TextOpts, TailOpts, AttrCounts, DeclOpts,
+CONSTANTS MaxItems, ItemKinds, TextOpts, TailOpts, EmptyOpts, AttrCounts, DeclOpts,
           Variants, RootArgs, Fragments, NsArgs,
           MaxSibs,        \* lxml: up to MaxSibs document-level comments/PIs before and after the root
           Emit            \* TRUE: Report prints the terminal vector with PrintT
@@ -71,7 +71,7 @@ DocAtStart ==
          [] OTHER              -> fragment = "false" \/ HasSibs   \* root.getparent() is None: item 1 is a root
 
 Init ==
-  /\ InputInit(MaxItems, ItemKinds, TextOpts, TailOpts, AttrCounts, DeclOpts,
+  /\ InputInit(MaxItems, ItemKinds, TextOpts, TailOpts, EmptyOpts, AttrCounts, DeclOpts,
                Variants, RootArgs, Fragments, NsArgs, SibSeqs)
   /\ pc = "start" /\ position = 0 /\ nodes = <<>> /\ docidx = 0 /\ rootidx = 0 /\ retidx = 0
   /\ sibk = 0 /\ cur = [of |-> 0, nxt |-> 0] /\ iters = <<>> /\ parent = 0 /\ ancs = <<>>
@@ -109,7 +109,7 @@ MkRoot ==
 
 RootText ==
   /\ pc = "roottext"
-  /\ IF txt[1]
+  /\ IF TextVal(1) # "none"                         \* `is not None`: the empty string is a chunk too
      THEN nodes' = Append(nodes, Node("t", 1, 0, position, rootidx)) /\ position' = position + 1
      ELSE UNCHANGED <<nodes, position>>
   /\ cur' = [of |-> 1, nxt |-> 1]
@@ -133,7 +133,7 @@ NextChild ==
 
 ChildText ==
   /\ pc = "childtext"
-  /\ IF txt[elem]
+  /\ IF TextVal(elem) # "none"
      THEN nodes' = Append(nodes, Node("t", elem, 0, position, child)) /\ position' = position + 1
      ELSE UNCHANGED <<nodes, position>>
   /\ pc' = "afterchild"
@@ -150,7 +150,7 @@ Descend ==
 
 ChildTail ==
   /\ pc = "afterchild" /\ KidSet(elem) = {}
-  /\ IF tl[elem]
+  /\ IF TailVal(elem) # "none"
      THEN nodes' = Append(nodes, Node("l", elem, 0, position, parent)) /\ position' = position + 1
      ELSE UNCHANGED <<nodes, position>>
   /\ pc' = "loop"
@@ -173,7 +173,7 @@ Pop ==
         /\ cur' = iters[Len(iters)]
         /\ iters' = SubSeq(iters, 1, Len(iters) - 1)
         /\ ancs' = SubSeq(ancs, 1, Len(ancs) - 1)
-        /\ IF tl[last.src]                           \* .elem.tail
+        /\ IF TailVal(last.src) # "none"               \* .elem.tail is not None
            THEN nodes' = Append(nodes, Node("l", last.src, 0, position, p)) /\ position' = position + 1
            ELSE UNCHANGED <<nodes, position>>
   /\ pc' = "loop"
@@ -235,7 +235,8 @@ Vector ==
       F == FullIter
   IN
   [cfg   |-> [variant |-> variant, rootarg |-> rootarg, fragment |-> fragment, nsarg |-> nsarg],
-   tree  |-> [n |-> n, par |-> par, knd |-> knd, txt |-> txt, tl |-> tl, nat |-> nat, decl |-> decl,
+   tree  |-> [n |-> n, par |-> par, knd |-> knd, txt |-> txt, tl |-> tl, etx |-> etx, etl |-> etl,
+              nat |-> nat, decl |-> decl,
               pre |-> pre, post |-> post],
    def   |-> [j \in 1..Len(S) |->
                 LET x == S[j]  ch == DefChildren(x)  sv == DefStringValue(x) IN
